@@ -325,6 +325,13 @@ def AComp.wf (cs : CharSpec) (e : Ext) (c : AComp) : Bool :=
         (!e.has Gen.EXT_ADVANCED_UNITS || q.advSafe)
     | none => true)
 
+/-- cookware: additionally no unit (a unit is an error) and no `@` modifier (an error) -/
+def AComp.wfCookware (cs : CharSpec) (e : Ext) (c : AComp) : Bool :=
+  c.wf cs e && !c.mods.contains .at &&
+  (match c.qty with
+    | some q => q.unit.isNone
+    | none => true)
+
 /-- what may follow a component: without a note, not a `(` (it would open one) -/
 def restOK (c : AComp) (rest : List Tok) : Bool :=
   c.note.isSome || rest.head?.all (fun t => t.kind != .openParen)
